@@ -27,6 +27,7 @@ import (
 	"google.golang.org/grpc"
 	"google.golang.org/grpc/codes"
 	"google.golang.org/grpc/credentials/insecure"
+	"google.golang.org/grpc/stats"
 	"google.golang.org/grpc/status"
 	"google.golang.org/grpc/test/bufconn"
 )
@@ -379,11 +380,120 @@ type retryEnv struct {
 	extraReact func() bool
 	// pending carries the result of an op that was reported as blocked and returned later.
 	pending chan string
+	// park holds a sender between its transport write and its return into withRetry (sendrecv op).
+	park *retryPark
+	wake chan struct{}
+}
+
+// retryCreds are per-RPC credentials whose GetRequestMetadata fails on scripted invocations: that makes
+// transport.NewStream fail after a successful pick (one invocation per stream creation).
+type retryCreds struct {
+	mu     sync.Mutex
+	script []int // 0 = succeed, otherwise the status code to fail with
+	n      int
+}
+
+func (c *retryCreds) GetRequestMetadata(context.Context, ...string) (map[string]string, error) {
+	c.mu.Lock()
+	defer c.mu.Unlock()
+	i := c.n
+	c.n++
+	if i < len(c.script) && c.script[i] != 0 {
+		return nil, status.Error(codes.Code(c.script[i]), "scripted per-RPC credentials failure")
+	}
+	return nil, nil
+}
+func (c *retryCreds) RequireTransportSecurity() bool { return false }
+
+// parseNS: "-" (no credentials installed) or a comma separated list of "-" (ok) / status codes.
+func parseNS(s string) *retryCreds {
+	if s == "" || s == "-" {
+		return nil
+	}
+	c := &retryCreds{}
+	for _, p := range strings.Split(s, ",") {
+		if p == "-" {
+			c.script = append(c.script, 0)
+		} else {
+			c.script = append(c.script, mustInt(p))
+		}
+	}
+	return c
+}
+
+// retryPark is a stats.Handler. When armed it parks the goroutine that delivers the next client OutPayload —
+// i.e. a SendMsg that has just written its message to the transport and has not yet re-entered withRetry —
+// provided no new attempt was begun since arming (so the write happened on the attempt that was current).
+type retryPark struct {
+	mu        sync.Mutex
+	armed     bool
+	begins    int
+	atArm     int
+	parked    bool
+	release   chan struct{}
+	wake      func()
+}
+
+func (p *retryPark) TagRPC(ctx context.Context, _ *stats.RPCTagInfo) context.Context   { return ctx }
+func (p *retryPark) TagConn(ctx context.Context, _ *stats.ConnTagInfo) context.Context { return ctx }
+func (p *retryPark) HandleConn(context.Context, stats.ConnStats)                       {}
+func (p *retryPark) HandleRPC(_ context.Context, s stats.RPCStats) {
+	switch v := s.(type) {
+	case *stats.Begin:
+		if v.Client {
+			p.mu.Lock()
+			p.begins++
+			p.mu.Unlock()
+		}
+	case *stats.OutPayload:
+		if !v.Client {
+			return
+		}
+		p.mu.Lock()
+		if !p.armed || p.begins != p.atArm {
+			p.armed = false
+			p.mu.Unlock()
+			return
+		}
+		p.armed = false
+		p.parked = true
+		rel := p.release
+		p.mu.Unlock()
+		p.wake()
+		<-rel
+	}
+}
+
+func (p *retryPark) arm() {
+	p.mu.Lock()
+	p.armed = true
+	p.atArm = p.begins
+	p.parked = false
+	p.release = make(chan struct{})
+	p.mu.Unlock()
+}
+
+func (p *retryPark) isParked() bool {
+	p.mu.Lock()
+	defer p.mu.Unlock()
+	return p.parked
+}
+
+func (p *retryPark) unpark() {
+	p.mu.Lock()
+	if p.parked {
+		p.parked = false
+		close(p.release)
+	}
+	p.armed = false
+	p.mu.Unlock()
 }
 
 func newRetryEnv(script []retryBehaviour, serviceConfig string, dopts []grpc.DialOption, kind string, copts []grpc.CallOption) *retryEnv {
-	e := &retryEnv{srv: newRServer(script)}
+	e := &retryEnv{srv: newRServer(script), wake: make(chan struct{}, 1)}
+	e.park = &retryPark{wake: e.poke}
 	d := []grpc.DialOption{
+		grpc.WithStatsHandler(e.park),
 		grpc.WithTransportCredentials(insecure.NewCredentials()),
 		grpc.WithContextDialer(func(ctx context.Context, _ string) (net.Conn, error) { return e.srv.lis.DialContext(ctx) }),
 	}
@@ -407,6 +517,106 @@ func newRetryEnv(script []retryBehaviour, serviceConfig string, dopts []grpc.Dia
 	}
 	e.opts = append([]grpc.CallOption{grpc.ForceCodec(retryRawCodec{})}, copts...)
 	return e
+}
+
+func (e *retryEnv) poke() {
+	select {
+	case e.wake <- struct{}{}:
+	default:
+	}
+}
+
+// drive runs the quiescence discipline (server answers and picker updates only at quiescent points, virtual
+// time advancing while everybody waits) until cond holds; false if an hour of virtual time passes without it.
+func (e *retryEnv) drive(cond func() bool) bool {
+	for {
+		settle()
+		if e.srv.react() || (e.extraReact != nil && e.extraReact()) {
+			continue
+		}
+		if cond() {
+			return true
+		}
+		tm := time.NewTimer(time.Hour)
+		select {
+		case <-e.wake:
+			tm.Stop()
+		case <-e.srv.input:
+			tm.Stop()
+		case <-tm.C:
+			settle()
+			return cond()
+		}
+	}
+}
+
+// opSendRecv: SendMsg and RecvMsg from two goroutines (the supported concurrency), scheduled so that the
+// receiver runs — and possibly retries the RPC — while the sender sits between its transport write and its
+// return into withRetry. If the sender's write does not happen on the attempt that was current (dead stream:
+// the sender retries by itself) nothing is parked and the two calls simply run one after the other.
+func (e *retryEnv) opSendRecv(size int) string {
+	if e.stream == nil {
+		return "no-stream"
+	}
+	e.seq++
+	p := bytes.Repeat([]byte{byte(e.seq)}, size)
+	var sRes, rRes string
+	var sDone, rDone bool
+	var mu sync.Mutex
+	e.park.arm()
+	e.opWG.Add(1)
+	go func() {
+		defer e.opWG.Done()
+		r := errStr(e.stream.SendMsg(p))
+		mu.Lock()
+		sRes, sDone = r, true
+		mu.Unlock()
+		e.poke()
+	}()
+	get := func(b *bool) bool { mu.Lock(); defer mu.Unlock(); return *b }
+	e.drive(func() bool { return e.park.isParked() || get(&sDone) })
+	startRecv := func() {
+		e.opWG.Add(1)
+		go func() {
+			defer e.opWG.Done()
+			var b []byte
+			err := e.stream.RecvMsg(&b)
+			r := errStr(err)
+			if err == nil {
+				r = fmt.Sprintf("msg%d", len(b))
+			}
+			mu.Lock()
+			rRes, rDone = r, true
+			mu.Unlock()
+			e.poke()
+		}()
+	}
+	if !e.park.isParked() && !get(&sDone) {
+		// the sender is stuck without having written (flow control etc.): not a scenario of this op
+		return fmt.Sprintf("S=blocked R=- t=- ev=%s", e.srv.drainEvents())
+	}
+	startRecv()
+	e.drive(func() bool { return get(&rDone) })
+	e.park.unpark()
+	e.drive(func() bool { return get(&sDone) })
+	e.drive(func() bool { return get(&rDone) })
+	for {
+		settle()
+		if !e.srv.react() && !(e.extraReact != nil && e.extraReact()) {
+			break
+		}
+	}
+	mu.Lock()
+	defer mu.Unlock()
+	if !rDone {
+		rRes = "blocked"
+		// report the eventual result like runOp does
+		e.pending = make(chan string, 1)
+	}
+	if !sDone {
+		sRes = "blocked"
+	}
+	return fmt.Sprintf("S=%s R=%s t=- ev=%s", strings.ReplaceAll(sRes, " ", "_"), strings.ReplaceAll(rRes, " ", "_"), e.srv.drainEvents())
 }
 
 // runOp runs one client operation to quiescence under the server discipline described at the top.
@@ -552,6 +762,7 @@ func (e *retryEnv) opCancel() string {
 }
 
 func (e *retryEnv) close() {
+	e.park.unpark()
 	e.cancel()
 	e.cc.Close()
 	e.srv.close()
